@@ -60,6 +60,48 @@ def frame_obligations(pid):
     return out
 
 
+def noread_obligations(pid):
+    """`read frame`: a contract marked no_read=[attrs] promises that the
+    method (transitively through self.m() calls, super() calls and
+    property getters) never reads those attributes; a caller may then hand
+    it an object whose attribute holds a stale value."""
+    C.load_all()
+    out = []
+    for con in C.for_property(pid):
+        attrs = con.extra.get("no_read")
+        if not attrs:
+            continue
+        t0 = time.time()
+        F = FrameInfer()
+        cls, meth = con.func.split(".")
+        shape_cls = C.SHAPES[con.self_shape].cls if con.self_shape and \
+            con.self_shape in C.SHAPES else cls
+        # the dynamic class may be a subclass of the declaring one
+        reads, unknown = F.may_read(
+            shape_cls if shape_cls in F.ci.classes and
+            cls in F.ci.mro(shape_cls) else cls, meth, attrs)
+        tol = set(con.extra.get("no_read_tolerate", ()))
+        unknown = {u for u in unknown if not any(t in u for t in tol)}
+        res = {"ident": f"{con.key[1]}::no_read", "function": con.func,
+               "file": con.file, "kind": "frame",
+               "backend": "frame-inference", "time": time.time() - t0,
+               "detail": {"attributes": sorted(attrs),
+                          "inferred_may_read": sorted(reads),
+                          "unknown": sorted(unknown)}}
+        if reads:
+            res["status"] = "refuted"
+            res["note"] = (f"{con.func} may read self."
+                           f"{', self.'.join(sorted(reads))} although its "
+                           f"contract says it never does")
+        elif unknown:
+            res["status"] = "unknown"
+            res["note"] = "; ".join(sorted(unknown))
+        else:
+            res["status"] = "discharged"
+        out.append(res)
+    return out
+
+
 def nonneg_obligations(pid):
     """`value frame`: for contracts that promise attr >= 0 on the strength
     of `nonneg_frame=[attr]`: every write to self.attr anywhere in the class
@@ -127,8 +169,9 @@ def register(pid):
 
     @extra(pid)
     def _f(tier, seed, pid=pid):
-        return frame_obligations(pid) + nonneg_obligations(pid)
+        return frame_obligations(pid) + nonneg_obligations(pid) + \
+            noread_obligations(pid)
 
 
-for _p in ("C01", "C13", "C15", "C05"):
+for _p in ("C01", "C13", "C15", "C05", "C12"):
     register(_p)
